@@ -51,6 +51,23 @@ impl<'a> PathBuilder<'a> {
     }
 }
 
+/// Strip the base path from the start of `path`, segment by segment, such that
+/// `"foo"`, `"/foo"`, `"foo/"` and `"/foo/"` all behave the same (and `""` like `"/"`).
+///
+/// Returns the rest of the path without leading `/`, or `None` if the path is not under the base path.
+fn strip_base_path<'a>(path: &'a str, base_path: &str) -> Option<&'a str> {
+    let mut rest = path.trim_start_matches('/');
+    for base_segment in base_path.split('/').filter(|s| !s.is_empty()) {
+        rest = rest.strip_prefix(base_segment)?;
+        if !rest.is_empty() && !rest.starts_with('/') {
+            // "foobar" is not under the base path "foo"
+            return None;
+        }
+        rest = rest.trim_start_matches('/');
+    }
+    Some(rest)
+}
+
 fn match_path_segments(segments: &[&str], old_segments: &[PathSegment]) -> Option<HashSet<usize>> {
     // This hurt my eyes
 
@@ -82,11 +99,7 @@ fn match_path_segments(segments: &[&str], old_segments: &[PathSegment]) -> Optio
 }
 
 fn get_locale_from_path<L: Locale>(path: &str, base_path: &str) -> Option<L> {
-    let base_path = base_path.trim_start_matches('/');
-    let stripped_path = path
-        .trim_start_matches('/')
-        .strip_prefix(base_path)?
-        .trim_start_matches('/');
+    let stripped_path = strip_base_path(path, base_path)?;
     L::get_all()
         .iter()
         .copied()
@@ -175,7 +188,7 @@ fn get_new_path<L: Locale>(
         if new_locale != L::default() {
             path_builder.push(new_locale.as_str());
         }
-        if let Some(path_rest) = path_name.strip_prefix(base_path) {
+        if let Some(path_rest) = strip_base_path(path_name, base_path) {
             let path_rest = match locale {
                 None => path_rest,
                 Some(l) => {
